@@ -388,8 +388,33 @@ pub fn record(args: &[String]) -> i32 {
             run_case(&mut tr, run, w, &mut t, tok::mode_of(ti), &json!({"k": "cps", "cps": cps(text)}), json!({"part": "oovdef"}));
         }
     }
+    // 7. numerals: a dictionary in which every numeral character is a word, the shipped character definition (kanji numerals carry
+    //    their class there, not in the fixture definition) and the numeral joining plugin, normalising and not; every string of
+    //    at most 4 (thorough: 5) symbols over digits, small and large units and separators - values up to 10^19 and beyond
+    let syms = ["1", "0", "5", "十", "千", "万", "億", "兆", ".", ",", "百"];
+    let nmax = if thorough { 5 } else { 4 };
+    let mut n_numeral = 0usize;
+    for (wn, norm) in [true, false].iter().enumerate() {
+        let w = World { name: format!("numerals-{}", norm), dict: crate::c15::numeral_dict(*norm, wn == 0), meta: json!({"has_fallback_oov": true}) };
+        let mut t = Sess::new(&w);
+        let mut frontier: Vec<String> = vec![String::new()];
+        for len in 1..=nmax {
+            let mut next = Vec::new();
+            for f in frontier.iter() { for y in syms.iter() { next.push(format!("{}{}", f, y)); } }
+            for (ti, text) in next.iter().enumerate() {
+                // quick: every string of <= 3 symbols, a third of the longer ones (another third without normalisation)
+                if !thorough && len > 3 && (ti + wn) % 3 != 0 { continue; }
+                if !*norm && len > 3 && ti % 2 == 0 { continue; }
+                run += 1;
+                n_numeral += 1;
+                let full = if ti % 5 == 0 { format!("{}円は", text) } else { text.clone() };
+                run_case(&mut tr, run, &w, &mut t, tok::mode_of(ti), &json!({"k": "cps", "cps": cps(&full)}), json!({"part": "numerals"}));
+            }
+            frontier = next;
+        }
+    }
     let n = tr.finish();
-    println!("{}", json!({"events": n, "runs": run, "oovdef_runs": n_oovdef}));
+    println!("{}", json!({"events": n, "runs": run, "oovdef_runs": n_oovdef, "numeral_runs": n_numeral}));
     0
 }
 
